@@ -56,7 +56,8 @@ namespace io
             {
                 nitro::lang::replace_all(word, "\t", " ");
 
-                if (word.size() + 1 > static_cast<std::size_t>(max_width - left_pad) ||
+                // a word, which doesn't even fit into a line of its own, stays where it is
+                if (word.size() > static_cast<std::size_t>(max_width - left_pad) ||
                     static_cast<int>(word.size() + 1) <= space)
                 {
                     s << ' ' << word;
